@@ -8,10 +8,19 @@ R = dict(SUCCED=0, LOCKED=5, UNLOCK=6, UNOWN=7, TIMEOUT=8, EXPRIED=9, STATE=10, 
 LOCKF = ("lockid", "depth", "ack", "refc", "timeouted", "expried", "eT", "tT", "isaof", "count", "rcount", "tflag", "req")
 
 
+_LOCK_CACHE = {}
+
+
 def parse_lock(tok):
+    """lock descriptors repeat from snapshot to snapshot: parsed once (the monitors treat them as read-only)"""
     if tok in ("nil", "freed"):
         return None if tok == "nil" else dict(freed=True)
-    return dict(zip(LOCKF, (int(x) for x in tok.split(":"))))
+    d = _LOCK_CACHE.get(tok)
+    if d is None:
+        if len(_LOCK_CACHE) > 400000:
+            _LOCK_CACHE.clear()
+        d = _LOCK_CACHE[tok] = dict(zip(LOCKF, (int(x) for x in tok.split(":"))))
+    return d
 
 
 def parse_req(line):
@@ -30,6 +39,9 @@ def parse_reply(ev):
                 rcount=int(f[9]), data=f[10])
 
 
+_KEY_CACHE = {}
+
+
 def parse_snap(lines):
     snap = dict(keys={})
     for ln in lines:
@@ -38,6 +50,10 @@ def parse_snap(lines):
                 k, v = tok.split("=")
                 snap[k] = int(v)
         elif ln.startswith("key "):
+            kd = _KEY_CACHE.get(ln)
+            if kd is not None:
+                snap["keys"][kd["key"]] = kd
+                continue
             head, rest = ln.split(" holders=[", 1)
             hold, rest = rest.split("]", 1)
             mid, rest = rest.split(" waiters=[", 1)
@@ -53,6 +69,9 @@ def parse_snap(lines):
             d["waiters"] = [parse_lock(t) for t in wait.split()]
             d["data"] = rest.split("data=")[1].strip() if "data=" in rest else "nil"
             d["shape"] = mid.strip()
+            if len(_KEY_CACHE) > 200000:
+                _KEY_CACHE.clear()
+            _KEY_CACHE[ln] = d
             snap["keys"][d["key"]] = d
     return snap
 
